@@ -36,8 +36,17 @@ def load():
         warnings.simplefilter("ignore")
         pkg = importlib.import_module("pyins")
         ns = types.SimpleNamespace(pyins=pkg)
-        for m in MODULES:
-            setattr(ns, m, importlib.import_module("pyins." + m))
+        # every module of the package (new helper modules included), not a fixed list
+        import pkgutil
+        found = [mi.name for mi in pkgutil.iter_modules(pkg.__path__) if not mi.ispkg and mi.name not in ("setup", "conftest")]
+        for m in found:
+            if m not in MODULES:
+                MODULES.append(m)
+        for m in list(MODULES):
+            try:
+                setattr(ns, m, importlib.import_module("pyins." + m))
+            except ModuleNotFoundError:
+                MODULES.remove(m)
     got = os.path.realpath(os.path.dirname(os.path.dirname(pkg.__file__)))
     if got != repo:
         raise RuntimeError("pyins imported from %s, expected %s" % (got, repo))
@@ -54,6 +63,30 @@ def source_of(module_name):
 def py_func(f):
     """The Python source numba compiles (assumption A4)."""
     return getattr(f, "py_func", f)
+
+
+def identity_patches(py, proxy, rotation):
+    """Rebind module globals by WHAT they are, not by how they are spelled: the numpy module under any alias
+    (`import numpy`, `import numpy as np`), numpy functions imported by name (`from numpy import sin, cos`), scipy's Rotation
+    under any alias -- so a change of import style changes nothing for the proofs."""
+    import numpy as _np
+    from scipy.spatial.transform import Rotation as _Rot
+    out = []
+    for m in MODULES:
+        mod = getattr(py, m)
+        names = {}
+        for k, v in list(mod.__dict__.items()):
+            if k.startswith("__"):
+                continue
+            if v is _np:
+                names[k] = proxy
+            elif v is _Rot and rotation is not None:
+                names[k] = rotation
+            elif callable(v) and getattr(v, "__name__", None) and getattr(_np, getattr(v, "__name__", ""), None) is v and not isinstance(v, type):
+                names[k] = getattr(proxy, v.__name__)
+        if names:
+            out.append((mod, names))
+    return out
 
 
 def dispatcher_patches(py, override=()):
@@ -83,16 +116,7 @@ def rdomain(py, rotation=None, extra=(), symbolic_constants=True, proxy=None):
     from .deps import RotationStub
     rotation = rotation or RotationStub
     proxy = proxy or NpProxy(RSym)
-    patches = []
-    for m in MODULES:
-        mod = getattr(py, m)
-        names = {}
-        if "np" in mod.__dict__:
-            names["np"] = proxy
-        if "Rotation" in mod.__dict__:
-            names["Rotation"] = rotation
-        if names:
-            patches.append((mod, names))
+    patches = identity_patches(py, proxy, rotation)
     if symbolic_constants:
         patches.append((py.earth, {k: RSym(v) for k, v in wgs84.CONSTANT_SYMBOLS.items()}))
     d2r = sp.pi / 180
@@ -162,16 +186,7 @@ def tdomain(py, extra=()):
     """Run pyins code in the trace domain (uninterpreted operation DAG, DESIGN 2.1-T)."""
     from .sym import T as _T
     proxy = NpProxy(TSym)
-    patches = []
-    for m in MODULES:
-        mod = getattr(py, m)
-        names = {}
-        if "np" in mod.__dict__:
-            names["np"] = proxy
-        if "Rotation" in mod.__dict__:
-            names["Rotation"] = TRotation
-        if names:
-            patches.append((mod, names))
+    patches = identity_patches(py, proxy, TRotation)
     patches.append((py.earth, {k: _T(k) for k in ("A", "E2", "RATE", "GE", "GP", "F")}))
     patches.append((py.transform, dict(DEG_TO_RAD=_T("DEG_TO_RAD"), RAD_TO_DEG=_T("RAD_TO_DEG"))))
     ni = py._numba_integrate
